@@ -20,6 +20,7 @@ def parseEnv : List String → Option Op
     | _, _ => none
   | ["close", k] => k.toNat?.map Op.close
   | ["exhaust"] => some Op.exhaust
+  | ["setwaker", w] => w.toNat?.map Op.setWaker
   | _ => none
 
 /-- run the receiver until it returns; fuel bounds the loop (each section strictly progresses) -/
@@ -38,6 +39,13 @@ def runPoll : Nat → FqSt → FqSt
       let mine := (f.post.filter (·.1 == k)).map (·.2)
       let s1 := mine.foldl step f.s
       runPoll fuel { f with s := step s1 .recvStep, post := f.post.filter (·.1 != k) }
+
+/-- the waker woken last (`-` if none yet) and the number of wake-ups so far -/
+def wk (s : St) : String :=
+  let l := match s.woken.getLast? with
+    | some w => toString w
+    | none => "-"
+  s!"w={l} wakes={s.wakes}"
 
 def fqOp (f : FqSt) (w : List String) : FqSt × String :=
   match w with
@@ -59,14 +67,14 @@ def fqOp (f : FqSt) (w : List String) : FqSt × String :=
     | .idle =>
       if f2.s.out.length > n0 then
         match f2.s.out.getLast? with
-        | some (k, i) => (f2, s!"ready {k} {i} wakes={f2.s.wakes}")
+        | some (k, i) => (f2, s!"ready {k} {i} {wk f2.s}")
         | none => (f2, "model-error")
       else (f2, "model-error idle-without-delivery")
-    | .parked => (f2, s!"pending wakes={f2.s.wakes}")
+    | .parked => (f2, s!"pending {wk f2.s}")
     | _ => (f2, "model-error out-of-fuel")
   | _ =>
     match parseEnv w with
-    | some op => let s' := step f.s op; ({ f with s := s' }, s!"ok wakes={s'.wakes}")
+    | some op => let s' := step f.s op; ({ f with s := s' }, s!"ok {wk s'}")
     | none => (f, "bad-op")
 
 end Driver
